@@ -2,7 +2,7 @@
    Model: Model/VConstraint.v.  Proofs: Proofs/RangeSpec.v, RangeAlg.v, RangeOps.v, UnionHull.v, UnionExact.v. *)
 From Coq Require Import List Bool NArith String.
 From PC Require Import Base.Cmp Base.Result Model.Pep440 Spec.Pep440Spec Model.VConstraint
-     Proofs.VersionFacts Proofs.RangeSpec Proofs.RangeAlg Proofs.RangeOps Proofs.UnionHull Proofs.UnionExact.
+     Proofs.VersionFacts Proofs.RangeSpec Proofs.RangeAlg Proofs.RangeOps Proofs.UnionHull Proofs.UnionExact Proofs.Contain Proofs.InterExact Model.VHyp.
 Import ListNotations.
 
 (* The property at full strength (every constraint shape, the three operations), kept visible.
@@ -100,3 +100,24 @@ Example C05_union_example :
     parse_constraint_text false false ">=2.0,<=3.0"%string = Ok b /\
     goodc a = true /\ goodc b = true /\ union a b = Ok c /\ vc_str c = Ok ">=1.0,<=4.0"%string.
 Proof. do 3 eexists. repeat split; vm_compute; reflexivity. Qed.
+
+(* Proved (the intersection clause, every constraint shape): as C05_union_exact, with the further decidable hypothesis that
+   the members of each union are sorted and apart ([sorted_c]: every earlier member is strictly lower than every later
+   one — what VersionUnion.of establishes; the check evaluates [h_goodc] and [h_sorted] on every generated operand and
+   reports how many meet them).  The two-pointer walk of VersionUnion.intersect is proved complete: no overlapping pair of
+   members is skipped. *)
+Theorem C05_intersect_exact : forall a b c, goodc a = true -> goodc b = true -> sorted_c a = true -> sorted_c b = true ->
+  intersect a b = Ok c ->
+  goodc c = true /\ forall v, wf v = true -> regular_c v a = true -> regular_c v b = true -> sem c v = sem a v && sem b v.
+Proof. exact intersect_admits_exactly. Qed.
+Print Assumptions C05_intersect_exact.
+Theorem C05_hypotheses_are_the_executable_ones : forall c, h_goodc c = goodc c /\ h_sorted c = sorted_c c.
+Proof. intros c. split; reflexivity. Qed.
+Example C05_intersect_example :
+  exists a b c, parse_constraint_text false false ">=1.0,<2.0 || >3.0,<=4.0 || 5.0"%string = Ok a /\
+    parse_constraint_text false false ">=1.5,<=3.5 || >=5.0"%string = Ok b /\
+    goodc a = true /\ goodc b = true /\ sorted_c a = true /\ sorted_c b = true /\
+    intersect a b = Ok c /\ vc_str c = Ok ">=1.5,<2.0 || >3.0,<=3.5 || 5.0"%string /\ sorted_c c = true.
+Proof. do 3 eexists. repeat split; vm_compute; reflexivity. Qed.
+(* Still open: difference (range minus range, range minus union, the union state machine), that the operations return
+   at all beyond the range level, and that VersionUnion.of's result is [sorted_c] (checked at run time, not proved). *)
